@@ -21,6 +21,7 @@ fn main() {
         "c15-life" => stress::c15(&rest),
         "race-stress" => race::main(&rest),
         "c07-stress" => stress::c07(&rest),
+        "c07-pods" => extra::c07_pods(&rest),
         "src-replay" => sources::main(&rest),
         "embed-check" => sources::embed_check(&rest),
         "shared-replay" => shared::replay(&rest),
